@@ -342,6 +342,13 @@ func replayOnRealCode(prog *Program, o *Obligation, rec *ReplayRecord, scratch s
 	for _, in := range o.Inputs {
 		argExprs = append(argExprs, g.value(in.Name, in.T))
 	}
+	// every argument is bound to a variable so that its state can be dumped before and after the call
+	var argDecls []string
+	for i, a := range argExprs {
+		nm := fmt.Sprintf("govcArg%d", i)
+		argDecls = append(argDecls, fmt.Sprintf("\t%s := %s\n\t_ = %s\n", nm, a, nm))
+		argExprs[i] = nm
+	}
 	call := ""
 	nres := fn.Signature.Results().Len()
 	var resNames []string
@@ -374,10 +381,19 @@ func replayOnRealCode(prog *Program, o *Obligation, rec *ReplayRecord, scratch s
 	src.WriteString(dumperSrc)
 	fmt.Fprintf(&src, "\nfunc TestGovcReplay(t *testing.T) {\n")
 	src.Write(g.decls.Bytes())
+	for _, d := range argDecls {
+		src.WriteString(d)
+	}
 	for i := 0; i < nres; i++ {
 		fmt.Fprintf(&src, "\tvar r%d %s\n", i, g.typeStr(fn.Signature.Results().At(i).Type()))
 	}
 	src.WriteString("\tout := map[string]interface{}{}\n")
+	// pre-state of the inputs (for frame obligations: the real code must leave them as they were)
+	src.WriteString("\tvar pre []interface{}\n")
+	for _, a := range argExprs {
+		fmt.Fprintf(&src, "\tpre = append(pre, govcDump(reflect.ValueOf(&%s).Elem(), 0))\n", a)
+	}
+	src.WriteString("\tout[\"pre\"] = pre\n")
 	src.WriteString("\tfunc() {\n\t\tdefer func() {\n\t\t\tif rec := recover(); rec != nil {\n\t\t\t\tout[\"panic\"] = fmt.Sprint(rec)\n\t\t\t}\n\t\t}()\n")
 	fmt.Fprintf(&src, "\t\t%s\n\t}()\n", call)
 	src.WriteString("\tvar results []interface{}\n")
@@ -388,13 +404,7 @@ func replayOnRealCode(prog *Program, o *Obligation, rec *ReplayRecord, scratch s
 	// post-state of inputs
 	src.WriteString("\tvar post []interface{}\n")
 	for _, a := range argExprs {
-		if strings.HasPrefix(a, "s") || strings.HasPrefix(a, "p") {
-			if !strings.ContainsAny(a, "({") {
-				fmt.Fprintf(&src, "\tpost = append(post, govcDump(reflect.ValueOf(&%s).Elem(), 0))\n", a)
-				continue
-			}
-		}
-		src.WriteString("\tpost = append(post, nil)\n")
+		fmt.Fprintf(&src, "\tpost = append(post, govcDump(reflect.ValueOf(&%s).Elem(), 0))\n", a)
 	}
 	src.WriteString("\tout[\"post\"] = post\n")
 	src.WriteString("\tb, _ := json.Marshal(out)\n\tos.Stdout.WriteString(\"\\nGOVC-REPLAY-RESULT \" + string(b) + \"\\n\")\n}\n")
@@ -429,6 +439,25 @@ func replayOnRealCode(prog *Program, o *Obligation, rec *ReplayRecord, scratch s
 		// differential: same prefix, different spare-capacity bytes
 		rec.Verdict = "confirmed"
 		rec.Reason = "real code re-slices beyond len without panicking (spare capacity present): result exposes bytes outside the input"
+		return
+	}
+	if o.Kind == "frame" {
+		// frame obligation: compare the inputs before and after the real call
+		pre, _ := actual["pre"].([]interface{})
+		post, _ := actual["post"].([]interface{})
+		for i := range pre {
+			if i < len(post) && pre[i] != nil && post[i] != nil {
+				a, _ := json.Marshal(pre[i])
+				b, _ := json.Marshal(post[i])
+				if string(a) != string(b) {
+					rec.Verdict = "confirmed"
+					rec.Reason = fmt.Sprintf("the real code changed its input #%d: before %s, after %s", i, clip(string(a), 300), clip(string(b), 300))
+					return
+				}
+			}
+		}
+		rec.Verdict = "not-reproduced"
+		rec.Reason = "the real code left the model's inputs unchanged"
 		return
 	}
 	if o.Clause == nil || o.Clause.Expr == nil {
@@ -815,3 +844,10 @@ func rerunReplay(path, repo string) int {
 }
 
 var _ = ssa.NaiveForm
+
+func clip(s string, n int) string {
+	if len(s) > n {
+		return s[:n] + "..."
+	}
+	return s
+}
